@@ -124,6 +124,19 @@ TrimL(s, set) == IF s # <<>> /\ s[1] \in set THEN TrimL(Tail(s), set) ELSE s
 TrimR(s, set) == IF s # <<>> /\ s[Len(s)] \in set THEN TrimR(SubSeq(s, 1, Len(s) - 1), set) ELSE s
 TrimSet(s, set) == TrimR(TrimL(s, set), set)
 SpaceSet == {32, 9, 10, 11, 12, 13}
+\* strings.TrimSpace removes every Unicode white-space character (White_Space property), as UTF-8 byte sequences:
+\* the ASCII ones, U+0085, U+00A0, U+1680, U+2000..U+200A, U+2028, U+2029, U+202F, U+205F, U+3000
+SpaceSeqs == {<<b>> : b \in SpaceSet} \cup {<<194, 133>>, <<194, 160>>, <<225, 154, 128>>, <<226, 128, 168>>, <<226, 128, 169>>,
+                                            <<226, 128, 175>>, <<226, 129, 159>>, <<227, 128, 128>>}
+             \cup {<<226, 128, b>> : b \in 128..138}
+HasPrefixQ(s, q) == Len(s) >= Len(q) /\ SubSeq(s, 1, Len(q)) = q
+HasSuffixQ(s, q) == Len(s) >= Len(q) /\ SubSeq(s, Len(s) - Len(q) + 1, Len(s)) = q
+RECURSIVE TrimLU(_), TrimRU(_)
+TrimLU(s) == IF \E q \in SpaceSeqs : HasPrefixQ(s, q)
+               THEN TrimLU(SubSeq(s, Len(CHOOSE q \in SpaceSeqs : HasPrefixQ(s, q)) + 1, Len(s))) ELSE s
+TrimRU(s) == IF \E q \in SpaceSeqs : HasSuffixQ(s, q)
+               THEN TrimRU(SubSeq(s, 1, Len(s) - Len(CHOOSE q \in SpaceSeqs : HasSuffixQ(s, q)))) ELSE s
+TrimSpaceU(s) == TrimRU(TrimLU(s))
 BytesOf(s) == {s[i] : i \in 1..Len(s)}
 Upper(s) == [i \in 1..Len(s) |-> IF s[i] >= 97 /\ s[i] <= 122 THEN s[i] - 32 ELSE s[i]]
 IsAscii(s) == \A i \in 1..Len(s) : s[i] < 128
@@ -695,7 +708,7 @@ EvalCall(e, st) ==
                  ELSE LET res ==
                         CASE e.f = "trim" -> [ok |-> TRUE, known |-> TRUE,
                                               s |-> IF Len(e.as) = 2 /\ e.as[2].s # <<>> THEN TrimSet(x.s, BytesOf(e.as[2].s))
-                                                    ELSE TrimSet(x.s, SpaceSet)]
+                                                    ELSE TrimSpaceU(x.s)]
                           [] e.f = "uppercase" -> [ok |-> TRUE, known |-> IsAscii(x.s), s |-> Upper(x.s)]
                           [] e.f = "url_decode" -> (LET u == UrlDec(x.s, 1, <<>>) IN [ok |-> u.ok, known |-> TRUE, s |-> u.s])
                           [] e.f = "replace" -> (LET q == RegexLookup(e.as[2].s, x.s, e.as[3].s) IN
